@@ -1145,6 +1145,39 @@ func (e *Env) evalCall(n *ECall) SVal {
 			v.st = e.old
 		}
 		return v
+	case "resultof":
+		// resultof("callee", k [, i]): the (i-th) result of the k-th call of callee executed so far in this function
+		cn := n.Args[0].(*EStr).Val
+		k := n.Args[1].(*EInt).Val
+		idx := 0
+		if len(n.Args) > 2 {
+			fmt.Sscanf(n.Args[2].(*EInt).Val, "%d", &idx)
+		}
+		full := k + ":" + cn
+		rs, ok := vc.callRes[full]
+		if !ok {
+			// short form: the method/function name only
+			for key, v := range vc.callRes {
+				if strings.HasPrefix(key, k+":") && (strings.HasSuffix(key, "."+cn) || strings.HasSuffix(key, ")."+cn)) {
+					rs, ok, full = v, true, key
+				}
+			}
+		}
+		if ok {
+			// only calls that were executed on every path to the current point
+			cb := vc.callResBlock[full]
+			here := vc.curBlock
+			if e.block != nil {
+				here = e.block
+			}
+			if cb == nil || here == nil || !(cb == here || cb.Dominates(here)) {
+				ok = false
+			}
+		}
+		if !ok || idx >= len(rs) {
+			e.fail("unknown name \"resultof(%s, %s)\" (call not executed yet)", cn, k)
+		}
+		return rs[idx]
 	case "heapof":
 		// heapof(all(T).f): the memory of field f of all objects of type T in the current state, as a mathematical
 		// array from object references to field values (lets a spec function or lemma take memory as a parameter)
